@@ -22,8 +22,8 @@ RULE = (
     "twice and through both get_dataset_convention and the accessor.  Binding: explicit-state search "
     "over histories of {access accessor, construct+bind detected class, construct+bind another class, "
     "copy, deep copy, detect} on up to 3 dataset objects: breadth-first with canonical-state "
-    "de-duplication to depth 6 (re-reached states must show identical observations), plus every history "
-    "without de-duplication to depth 3 (quick) / 4 (thorough), each replayed from scratch on fresh "
+    "de-duplication to depth 6 (quick) / 8 (thorough) (re-reached states must show identical observations), plus every history "
+    "without de-duplication to depth 3 (quick) / 5 (thorough), each replayed from scratch on fresh "
     "objects and compared with the binding model at every step.  Non-trivial: detection cases with a tie "
     "decided by manual registration; histories containing both a copy and a bind."
 )
@@ -38,7 +38,7 @@ EXTRAS = ('HIGH', 'MEDIUM', 'LOW', 'NOTHING')
 
 
 def bounds(tier):
-    return {'registration_orders': 41, 'history_depth_full': 3 if tier == 'quick' else 4, 'bfs_depth': 6, 'objects': 3}
+    return {'registration_orders': 41, 'history_depth_full': 3 if tier == 'quick' else 5, 'bfs_depth': 6 if tier == 'quick' else 8, 'objects': 3}
 
 
 def cases(tier):
@@ -46,8 +46,8 @@ def cases(tier):
     for r in range(0, 4):
         for order in itertools.permutations(EXTRAS, r):
             out.append({'part': 'detect', 'order': list(order)})
-    depth = 3 if tier == 'quick' else 4
-    out.append({'part': 'bind-bfs', 'depth': 6})
+    depth = 3 if tier == 'quick' else 5
+    out.append({'part': 'bind-bfs', 'depth': 6 if tier == 'quick' else 8})
     # full enumeration, split by first operation to spread over workers
     for first in range(len(enabled_ops(1, 1))):
         out.append({'part': 'bind-full', 'depth': depth, 'first': first})
